@@ -287,6 +287,8 @@ def tsubs(t, name, val):
         c = t[1]
         if c[0] in ("in", "notin"):
             c = (c[0], psubs(c[1], name, val), dsubs(c[2], name, val))
+        elif c[0] == "nin":
+            c = ("nin", psubs(c[1], name, val), tsubs(c[2], name, val))
         return ("if", c, tsubs(t[2], name, val))
     if k == "minus":
         return ("minus", tsubs(t[1], name, val), tsubs(t[2], name, val))
@@ -461,6 +463,8 @@ def _norm(t):
                 for dm in doms:
                     body = ("if", ("notin", P.s(base[1]), dm), body)
                 return ("for", base[1], base[2], base[3], body)
+        if base[0] == "for" and base[4][0] == "int" and base[4][1] == P.s(base[1]) and not opaque(d) and all(x[0] != "row" for x in walk(d)):
+            return ("for", base[1], base[2], base[3], ("if", ("nin", P.s(base[1]), d), base[4]))
         if base[0] == "for" and base[4][0] == "if":
             inner = _norm(("minus", ("for", base[1], base[2], base[3], ("int", P.s(base[1]))), d))
             if inner[0] == "for" and base[4][2] == ("int", P.s(base[1])):
@@ -552,7 +556,7 @@ def show(t):
         return f"for {t[1]} in {show_dom(t[2])}: {show(t[3])}"
     if k == "if":
         c = t[1]
-        cs = f"{c[1]!r} {'in' if c[0] == 'in' else 'not in'} {show_dom(c[2])}" if c[0] in ("in", "notin") else c[1]
+        cs = f"{c[1]!r} {'in' if c[0] == 'in' else 'not in'} {show_dom(c[2])}" if c[0] in ("in", "notin") else (f"{c[1]!r} not in [{show(c[2])}]" if c[0] == "nin" else c[1])
         return f"if {cs}: {show(t[2])}"
     if k == "minus":
         return f"({show(t[1])} minus {show(t[2])})"
